@@ -229,7 +229,7 @@ def quad_moments(cond, par, kind, mu, Sig):
 def run_shard(shard, ctx):
     tier, seed = shard["tier"], shard["seed"]
     kind, Dx, Dy = shard["kind"], shard["Dx"], shard["Dy"]
-    vis = [0, 100] if tier == "quick" else [0, 1, 100, 101]
+    vis = [0, 100] if tier == "quick" else [0, 1, 100, 101, 102, 103, 104, 105]
     for vi in vis:
         for Rx in (1, 2):
             if not ctx.case(dict(vi=vi, Rx=Rx)):
